@@ -288,3 +288,6 @@ def run(ck, F, tier):
         getattr(c12, fn)(s12, F)
     s10 = Scoped(ck, 'C10.')
     c10.rule_c(s10, F)
+    # the bits of an inter macroblock are attributed to the right syntax elements (COD, MCBPC Table 8, CBPY complemented, DQUANT, MVD, MVD2-4, TCOEF)
+    from . import mblayer
+    mblayer.run_for(ck, F, 'MB.', ['tcoef', 'mcbpc_p', 'cbpy'], ['macroblock', 'mv', 'block'])
